@@ -805,6 +805,8 @@ class Interp:
                     return ("case", r0[1], tuple((lab, res_case(x)) for lab, x in r0[2]))
                 return None
             return res_case(args[0])
+        if re.search(r"^std::result::Result::<", fn["def"]):
+            return self.result_op(fn, name, args, is_clo, call, some, NONE)
         if not re.search(r"^std::option::Option::<", fn["def"]):
             return None
         a = args
@@ -840,6 +842,56 @@ class Interp:
         if name in ("is_some", "is_none") and len(a) == 1:
             yes, no = (C(1), C(0)) if name == "is_some" else (C(0), C(1))
             return self.opt_case(a[0], lambda: no, lambda v: yes)
+        return None
+
+    def res_case(self, r, on_err, on_ok):
+        """Case analysis of a Result value: on_err(e) / on_ok(v) are applied at the leaves."""
+        r0 = strip_casts(r)
+        if isinstance(r0, tuple) and r0 and r0[0] == "agg" and r0[2] == "Ok" and len(r0[3]) == 1:
+            return on_ok(r0[3][0])
+        if isinstance(r0, tuple) and r0 and r0[0] == "agg" and r0[2] == "Err" and len(r0[3]) == 1:
+            return on_err(r0[3][0])
+        if isinstance(r0, tuple) and r0 and r0[0] == "case":
+            return ("case", r0[1], tuple((lab, self.res_case(v, on_err, on_ok)) for lab, v in r0[2]))
+        return None
+
+    def result_op(self, fn, name, a, is_clo, call, some, NONE):
+        """Result combinators on values whose Ok/Err shape is known at every leaf (integer try_from, ...)."""
+        ok = lambda v: ("agg", "std::result::Result", "Ok", (v,))
+        err = lambda e: ("agg", "std::result::Result", "Err", (e,))
+
+        def ctor(f):
+            f0 = strip_casts(f)
+            if isinstance(f0, tuple) and f0[0] == "fn":
+                c = re.sub(r"::<.*$", "", str(f0[1]))
+                owner, _, var = c.rpartition("::")
+                adt = self.facts.adts.get(owner)
+                if adt and any(vr["name"] == var for vr in adt["variants"]):
+                    return lambda v: ("agg", owner, var, (v,))
+            if is_clo(f):
+                return lambda v: call(f, [v])
+            return None
+        if name == "map" and len(a) == 2 and ctor(a[1]):
+            return self.res_case(a[0], err, lambda v: ok(ctor(a[1])(v)))
+        if name == "map_err" and len(a) == 2 and ctor(a[1]):
+            return self.res_case(a[0], lambda e: err(ctor(a[1])(e)), ok)
+        if name == "or_else" and len(a) == 2 and is_clo(a[1]):
+            return self.res_case(a[0], lambda e: call(a[1], [e]), ok)
+        if name == "and_then" and len(a) == 2 and is_clo(a[1]) and not self.ctx.collect_asserts:
+            return self.res_case(a[0], err, lambda v: call(a[1], [v]))
+        if name == "or" and len(a) == 2:
+            return self.res_case(a[0], lambda e: a[1], ok)
+        if name == "unwrap_or" and len(a) == 2:
+            return self.res_case(a[0], lambda e: a[1], lambda v: v)
+        if name == "unwrap_or_else" and len(a) == 2 and is_clo(a[1]):
+            return self.res_case(a[0], lambda e: call(a[1], [e]), lambda v: v)
+        if name == "unwrap_or_default" and len(a) == 1:
+            return None
+        if name in ("is_ok", "is_err") and len(a) == 1:
+            yes, no = (C(1), C(0)) if name == "is_ok" else (C(0), C(1))
+            return self.res_case(a[0], lambda e: no, lambda v: yes)
+        if name == "err" and len(a) == 1:
+            return self.res_case(a[0], some, lambda v: NONE)
         return None
 
     def closure_touches_sink(self, cid, seen=None):
